@@ -29,6 +29,11 @@ import atexit as _atexit
 
 
 def _cleanup():
+    for p in _DECOY_PATHS:
+        try:
+            os.unlink(p)
+        except OSError:
+            pass
     if _LAST['path']:
         try:
             os.unlink(_LAST['path'])
@@ -37,6 +42,28 @@ def _cleanup():
 
 
 _atexit.register(_cleanup)
+
+
+DECOYS = ["2 7\n1: 1 2 3 4 5 6 7\n2: 7 6 5 4 3 2 1\n" + "".join("%d: 0: 1\n" % j for j in range(1, 8)),
+          "1 1\n1: 1\n1: 0: 1\n",
+          "3 2 1\n1: (1 2)\n2: 2\n3: 1 2\n1: 0: 2: 1\n2: 0: 2: 1\n1: 0: 1: 3:\n"]
+
+
+def decoy_solver(k):
+    """Another, unrelated Solver object built (instance imported) while the observed one is alive: objects of one
+    process are independent, so nothing the observed Solver prints may depend on it.  Returns the object (kept alive
+    by the caller)."""
+    from matchingproblems.solver.solver import Solver
+    d = os.environ.get('VERIF_WORK') or C.WORKROOT
+    path = os.path.join(d, 'decoy_%d_%d.txt' % (os.getpid(), k % len(DECOYS)))
+    if not os.path.exists(path):
+        with open(path, 'w') as fh:
+            fh.write(DECOYS[k % len(DECOYS)])
+        _DECOY_PATHS.append(path)
+    return Solver(['-f', path, '-na', '3' if k % len(DECOYS) == 2 else '2', '-maxsize', '1'])
+
+
+_DECOY_PATHS = []
 
 
 def inst_opts(na, twopl, pc=False):
@@ -121,6 +148,7 @@ def results_with_values(text, na, twopl, info, vals, long, stab):
     m.info_string = info
     m.pulp_status = 'Optimal'
     m.time_limit = None
+    other = decoy_solver(len(text) + len(info)) if (len(text) + len(info)) % 3 == 1 else None   # noqa: F841
     return canon_results(m.get_results(Output_type.LONG if long else Output_type.SHORT, stab))
 
 
@@ -137,6 +165,7 @@ def solver_run(text, argv_extra, getters=('get_results',), time_limit=None):
     with tmpfile(text) as path:
         s = Solver(['-f', path] + list(argv_extra))
         s.solve(msg=False, timeLimit=time_limit, threads=None, write=False)
+        other = decoy_solver(len(text)) if len(text) % 3 == 1 else None      # noqa: F841 (kept alive on purpose)
         return [canon_results(getattr(s, g)()) for g in getters]
 
 
